@@ -77,7 +77,9 @@ func guard(f func()) (pnc any, stack string) {
 func c02Check(w *mc.W, st *c02State, b []byte, unit string) {
 	w.Eval()
 	st.copy = append(st.copy[:0], b...)
-	fail := func(key, what string) { w.Fail(key, fmt.Sprintf("input %s: %s", hexShort(st.copy), what), mkBytesCase(st.copy, unit)) }
+	fail := func(key, what string) {
+		w.Fail(key, fmt.Sprintf("input %s: %s", hexShort(st.copy), what), mkBytesCase(st.copy, unit))
+	}
 
 	// (a) recorder
 	st.rd.ResetLog()
